@@ -209,6 +209,11 @@ CHECKS = {
        "drain each application has been notified of exactly what the other side published (C01_pair_two_way_exactly_once); "
        "the same for v5.0 with Receive Maximum and Maximum Packet Size negotiated in both directions, where after the drain both accounts "
        "are back to full and neither side holds an outstanding entry (C01_pair_two_way_v5_exactly_once, Conn/PairBi5.v); "
+       "(1h) THE v5.0 HANDSHAKE, for every negotiated Receive Maximum / Maximum Packet Size / Session Expiry / Server Keep Alive (Clean Start, no "
+       "Topic Alias Maximum), establishes the two-way pair invariant with each side's limits equal to what the other announced "
+       "(C01_pair_v5_handshake_establishes_invariant), hence END TO END: two freshly constructed v5.0 endpoints, any such handshake, then any "
+       "schedule of publications by either side and deliveries - nothing fails, exactly-once delivery both ways, both accounts full "
+       "again (C01_fresh_v5_endpoints_interoperate, Conn/PairHandshake5.v); "
        "(1m) MANUAL RESPONSES: with auto_pub_response off on both endpoints the library requests nothing itself, "
        "each acknowledgement the application sends goes through send() to the same code, and QoS 1 / QoS 2 exchanges complete from every "
        "admissible pair of states (C01_pair_qos1_completes_manual, C01_pair_qos2_completes_manual, Conn/PairManual.v), and for v5.0 with the "
